@@ -4188,3 +4188,173 @@ def t_y_index_live(facts, res, tier):
                 res.fail(key, facts.where(fn, stmts[store]), "generate_expr (assignment) stores through a destination indexed by the program's Y without refusing the case where the right side has parked Y and loaded another index: the store goes to another element")
     if n == 0:
         raise AnchorMissing("generate_expr: the Assign arm was not found")
+
+
+@rule("T-CARRY-CHAIN", floor=2,
+      text="the high byte pass of `+` / `-` continues the carry chain of the low byte pass.  A second addition or subtraction in the same high byte "
+           "pass would take the carry of the first high byte operation instead of its own low byte: generate_arithm refuses it (`Carry "
+           "propagation too complex`) whenever `self.carry_propagation_error && high_byte` - whatever the operand is.  An exemption for some "
+           "operand kinds (an 8-bit cell \"only adds 0\") still lets that ADC #0 consume the wrong carry: `s = a + b + c` with a = 0x00ff, b = 1 "
+           "gives 0")
+def t_carry_chain(facts, res, tier):
+    fn = facts.fn("generate_arithm", genmodel.GEN_QUAL)
+    n = 0
+    for x in walk(fn["body"]):
+        if x.get("k") != "if":
+            continue
+        t = expr_text(x["then"]).replace(" ", "")
+        if "Carrypropagationtoocomplex" not in t:
+            continue
+        n += 1
+        c = expr_text(x["cond"]).replace(" ", "")
+        parts = sorted(p.strip("()") for p in re.split(r"&&", c.strip("()")))
+        key = "T-CARRY-CHAIN:generate_arithm#%d" % n
+        res.inst(key, True, {"refused_when": parts})
+        if parts != ["high_byte", "self.carry_propagation_error"]:
+            res.fail("T-CARRY-CHAIN:generate_arithm", facts.where(fn, x), "generate_arithm refuses a second add/sub of a high byte pass only when `%s`: the extra condition admits chains whose second ADC / SBC takes the carry of the first high byte operation" % c)
+    if n == 0:
+        raise AnchorMissing("generate_arithm: the carry propagation refusal was not found")
+
+
+SAME_REG = {("LDA", "STA"), ("LDX", "STX"), ("LDY", "STY"), ("STA", "LDA"), ("STX", "LDX"), ("STY", "LDY")}
+
+
+@rule("T-OPT-SAME-REG", floor=2,
+      text="a peephole rule of optimize() that deletes one of two adjacent instructions because they name the same cell (`i1.dasm_operand == "
+           "i2.dasm_operand`: the store back after a load, the reload after a store) is about one register: every pair of mnemonics its condition "
+           "admits is LDA/STA, LDX/STX or LDY/STY (in either order).  `LDX v` followed by `STY v` is not a store back: deleting the STY leaves v "
+           "without the value of Y")
+def t_opt_same_reg(facts, res, tier):
+    fn = facts.fn("optimize", "AssemblyCode")
+    n = 0
+    for x in walk(fn["body"]):
+        if x.get("k") != "if":
+            continue
+        if not any(y.get("k") == "assign" and expr_text(y["l"]).replace(" ", "") in ("remove_second", "remove_first", "remove_both") and expr_text(y["r"]).strip() == "true" for y in walk(x["then"])):
+            continue
+        c = expr_text(x["cond"]).replace(" ", "")
+        if not re.search(r"(\w+)\.dasm_operand==(\w+)\.dasm_operand", c):
+            continue
+        sets = {}
+        for inst in ("i1", "i2"):
+            ms = set(re.findall(r"%s\.mnemonic==AsmMnemonic::(\w+)" % inst, c))
+            for mm in re.finditer(r"matches!\(%s\.mnemonic,([^)]*)\)" % inst, c):
+                ms |= set(re.findall(r"AsmMnemonic::(\w+)", mm.group(1)))
+            sets[inst] = ms
+        if not sets["i1"] or not sets["i2"]:
+            continue
+        n += 1
+        key = "T-OPT-SAME-REG:%s+%s" % ("|".join(sorted(sets["i1"])), "|".join(sorted(sets["i2"])))
+        pairs = [(a, b) for a in sorted(sets["i1"]) for b in sorted(sets["i2"])]
+        bad = [p for p in pairs if p not in SAME_REG and {p[0][:2], p[1][:2]} <= {"LD", "ST"}]
+        res.inst(key, True, {"first": sorted(sets["i1"]), "second": sorted(sets["i2"]), "pairs_admitted": len(pairs)})
+        if bad and "||" not in c:
+            res.fail(key, facts.where(fn, x), "optimize() deletes an instruction of the pairs %s on the ground that both name the same cell: the two instructions use different registers" % ", ".join("%s/%s" % p for p in bad))
+    if n == 0:
+        raise AnchorMissing("optimize(): no same-cell pair rule found")
+
+
+@rule("T-WRITE-ALL", floor=1,
+      text="the size the compiler reports is counted over the lines of an AssemblyCode (size_bytes, check_branches); what the assembler gets is "
+           "what AssemblyCode::write prints.  write hands every line of `self.code` to the line writer, in order, without skipping any: a jump "
+           "\"not worth a line of the listing\" is still counted as 3 bytes")
+def t_write_all(facts, res, tier):
+    fn = next((f for f in facts.fns if f["name"] == "write" and f.get("qual") == "AssemblyCode" and not f.get("test")), None)
+    if fn is None:
+        raise AnchorMissing("AssemblyCode::write not found")
+    loops = [x for x in walk(fn["body"]) if x.get("k") in ("for", "while", "loop")]
+    key = "T-WRITE-ALL:AssemblyCode::write"
+    res.inst(key, True, {"loops": len(loops)})
+    if len(loops) != 1 or loops[0].get("k") != "for" or expr_text(loops[0].get("iter") or {}).replace(" ", "").lstrip("&") not in ("self.code", "self.code.iter()"):
+        res.fail(key, facts.where(fn, loops[0] if loops else fn["body"]), "AssemblyCode::write does not walk `self.code` with a plain `for` over all its lines")
+        return
+    lp = loops[0]
+    skips = [x for x in walk(lp["body"]) if x.get("k") in ("continue", "break")]
+    top = [s for s in lp["body"].get("stmts", []) if any(y.get("k") == "mcall" and y["method"] == "write" for y in walk(s)) and s.get("k") not in ("if", "match")]
+    if skips or not top:
+        res.fail(key, facts.where(fn, skips[0] if skips else lp), "AssemblyCode::write skips lines of the code (%s): what is written is no longer what size_bytes and check_branches counted" % ("`%s` in the loop" % skips[0]["k"] if skips else "the line writer is called under a condition"))
+
+
+@rule("T-PARSE-SAME-TEXT", floor=1,
+      text="positions in the parse tree are byte offsets into the text the parser was given; syntax_error, compiler_error and warning turn them into "
+           "lines by scanning `CompilerState.preprocessed_utf8`.  The two are the same text: the second argument of `Cc2600Parser::parse(Rule::program, "
+           "..)` in compile() is the very value stored in that field, not a trimmed, sliced or rewritten view of it (3 bytes of byte order mark "
+           "stripped for the parser only put every diagnostic 3 bytes - sometimes a line - early)")
+def t_parse_same_text(facts, res, tier):
+    fn = next((f for f in facts.fns if f["name"] == "compile" and f["file"].endswith("/compile.rs") and not f.get("test")), None)
+    if fn is None:
+        raise AnchorMissing("compile() not found")
+    stored = None
+    for x in walk(fn["body"]):
+        if x.get("k") == "struct" and (x.get("segs") or [""])[-1] == "CompilerState":
+            for f in x.get("fields", []):
+                if f.get("name") == "preprocessed_utf8":
+                    stored = expr_text(f["e"]).replace(" ", "") if f.get("e") is not None else "preprocessed_utf8"
+    parsed = None
+    node = None
+    for x in walk(fn["body"]):
+        if x.get("k") == "call" and expr_text(x["func"]).replace(" ", "").endswith("Parser::parse") and len(x["args"]) == 2 and "Rule::program" in expr_text(x["args"][0]):
+            parsed = expr_text(x["args"][1]).replace(" ", "")
+            node = x
+    if stored is None or parsed is None:
+        raise AnchorMissing("compile(): the CompilerState literal or the parser call was not found")
+    key = "T-PARSE-SAME-TEXT:compile"
+    res.inst(key, True, {"stored": stored, "parsed": parsed})
+    if parsed.lstrip("&") != stored.lstrip("&"):
+        res.fail(key, facts.where(fn, node), "compile() parses `%s` while the positions of the parse tree are later looked up in `%s` (CompilerState.preprocessed_utf8): offsets into one text are used in another" % (parsed, stored))
+
+
+@rule("T-CONST-FIRST", floor=1,
+      text="a name that stands for a constant (`const char K = 3`: a definition `Value(Int(v))`) is replaced by the constant as soon as it is met: in "
+           "the arm of generate_expr for a plain identifier, the test of the definition is the first decision, before the high byte / sign "
+           "extension cases that load the variable from memory (a constant has no memory cell of its own).  `const signed char c = -3; s = c;` "
+           "otherwise sign-extends whatever byte lives at the address `c`")
+def t_const_first(facts, res, tier):
+    fn = facts.fn("generate_expr", genmodel.GEN_QUAL)
+    n = 0
+    for m in walk(fn["body"]):
+        if m.get("k") != "match" or expr_text(m["e"]).replace(" ", "") != "sub_output":
+            continue
+        arm = next((a for a in m["arms"] if pat_text(a["pat"]).replace(" ", "") == "ExprType::Nothing"), None)
+        if arm is None:
+            continue
+        n += 1
+        key = "T-CONST-FIRST:generate_expr:identifier"
+        body = arm["body"]
+        st = body.get("stmts", [body]) if body.get("k") == "block" else [body]
+        first = next((s for s in st if s.get("k") in ("if", "match")), None)
+        ok = first is not None and first.get("k") == "if" and first["cond"].get("k") == "letcond" and "VariableDefinition::Value(VariableValue::Int(" in pat_text(first["cond"]["pat"]).replace(" ", "") \
+            and "Immediate" in expr_text(first["then"])
+        res.inst(key, True, {"first_decision": expr_text(first["cond"])[:70] if first is not None and first.get("k") == "if" else None})
+        if not ok:
+            res.fail(key, facts.where(fn, first if first is not None else body), "generate_expr (plain identifier): the first decision is not `if let VariableDefinition::Value(VariableValue::Int(v)) = &v.def => Immediate(v)`: a constant can be taken for a variable in memory by the cases tried before")
+    if n == 0:
+        raise AnchorMissing("generate_expr: the match on the subscript of an identifier was not found")
+
+
+@rule("T-LOOPS-BALANCED", floor=4,
+      text="`self.loops` is the stack of the constructs a `break` / `continue` can leave: a construct pushes its labels, generates its body, and pops.  "
+           "Between the push and the pop no generator function returns normally (`return Ok(..)`): an early return leaves a stale entry, and the "
+           "next `break` of the enclosing loop jumps to the end label of a construct that never emitted it")
+def t_loops_balanced(facts, res, tier):
+    n = 0
+    for fn in genmodel.gen_fns(facts):
+        pushes = [x for x in walk(fn["body"]) if x.get("k") == "mcall" and x["method"] == "push" and expr_text(x["recv"]).replace(" ", "") == "self.loops"]
+        pops = [x for x in walk(fn["body"]) if x.get("k") == "mcall" and x["method"] == "pop" and expr_text(x["recv"]).replace(" ", "") == "self.loops"]
+        if not pushes:
+            continue
+        line = lambda x: tuple(int(v) for v in str(x.get("loc", "0:0")).split(":"))
+        for p in pushes:
+            n += 1
+            key = "T-LOOPS-BALANCED:%s" % fn["name"]
+            after = [q for q in pops if line(q) > line(p)]
+            res.inst(key, True, {"function": fn["name"], "pop_follows": bool(after)})
+            if not after:
+                res.fail(key, facts.where(fn, p), "%s pushes an entry on `self.loops` and never pops it" % fn["name"])
+                continue
+            end = min(line(q) for q in after)
+            early = [r for r in walk(fn["body"]) if r.get("k") == "return" and line(p) < line(r) < end and not expr_text(r.get("e") or {}).replace(" ", "").startswith("Err(")]
+            for r in early:
+                res.fail(key, facts.where(fn, r), "%s returns `%s` between the push on `self.loops` and the pop: the entry stays, and a later `break` jumps to the end label of this construct, which was never emitted" % (fn["name"], expr_text(r.get("e") or {})[:30]))
+    if n == 0:
+        raise AnchorMissing("no push on self.loops found")
